@@ -63,11 +63,36 @@ BAD_MODES = ["drop", "KEEP", "", None, "keep "]
 # --------------------------------------------------------------------------
 # generators
 
-meta_st = st.dictionaries(st.sampled_from(ATTRS), st.sampled_from(VALUES), max_size=3)
-crit_st = st.dictionaries(
-    st.sampled_from(ATTRS),
-    st.lists(st.sampled_from(VALUES), min_size=0, max_size=3, unique_by=repr),
-    max_size=2)
+@st.composite
+def meta_st(draw):
+    """Metadata of one item: usually has 'color', often 'k', sometimes 'role'; values from a
+    pool of four, so that criteria hit and miss and attributes are missing from some items."""
+    m = {}
+    if draw(st.integers(0, 5)) != 0:
+        m["color"] = draw(st.sampled_from(["red", "blue", "red", 1]))
+    if draw(st.integers(0, 2)) != 0:
+        m["k"] = draw(st.sampled_from([1, 2, 1, "red"]))
+    if draw(st.integers(0, 3)) == 0:
+        m["role"] = draw(st.sampled_from(VALUES))
+    return m
+
+
+@st.composite
+def crit_st(draw):
+    kind = draw(st.integers(0, 9))
+    if kind == 0:
+        return {}  # matches everything
+    attrs = [draw(st.sampled_from(["color", "color", "k", "k", "role"]))]
+    if kind >= 7:
+        attrs.append(draw(st.sampled_from(ATTRS)))
+    out = {}
+    for a in attrs:
+        out[a] = draw(st.lists(st.sampled_from(VALUES), min_size=0 if kind == 1 else 1,
+                               max_size=3, unique_by=repr))
+    return out
+
+
+maybe_meta = st.integers(0, 5).flatmap(lambda i: st.none() if i == 0 else meta_st())
 
 
 @st.composite
@@ -77,30 +102,40 @@ def filter_cases(draw, tier, flavour):
     labels = U["labels"]
     n = len(labels)
     # a node either gets a metadata dict or is created implicitly by its first hyperedge
-    nodes_meta = [draw(st.one_of(st.none(), meta_st)) for _ in labels]
+    nodes_meta = [draw(maybe_meta) for _ in labels]
     weighted = draw(st.sampled_from([False, True]))
-    n_rec = draw(st.integers(0, 10 if big else 7))
+    n_rec = draw(st.integers(0, 10 if big else 8))
     recs, seen = [], set()
     for _ in range(n_rec):
         size = draw(st.sampled_from([1, 2, 2, 3, 3, 4]))
-        ns = draw(st.lists(st.integers(0, n - 1), min_size=min(size, n), max_size=min(size, n),
-                           unique=True))
+        src = None
+        if recs and draw(st.integers(0, 3)) == 0:
+            # a sub- or superset of an earlier record: shrinking one makes them merge
+            src = recs[draw(st.integers(0, len(recs) - 1))]
+            base = list(src["ns"])
+            other = draw(st.integers(0, n - 1))
+            ns = [i for i in base if i != other] if other in base else base + [other]
+            if not ns:
+                ns = base
+        else:
+            ns = draw(st.lists(st.integers(0, n - 1), min_size=min(size, n),
+                               max_size=min(size, n), unique=True))
         r = {"ns": ns, "w": draw(st.integers(1, 9)) if weighted else 1,
-             "meta": draw(st.one_of(st.none(), meta_st))}
+             "meta": draw(maybe_meta)}
         key = frozenset(ns)
         if flavour == "temporal":
-            r["t"] = draw(st.integers(0, 2))
+            r["t"] = src["t"] if src is not None else draw(st.integers(0, 2))
             key = (key, r["t"])
         elif flavour == "multiplex":
-            r["layer"] = draw(st.sampled_from(LAYERS))
+            r["layer"] = src["layer"] if src is not None else draw(st.sampled_from(LAYERS))
             key = (key, r["layer"])
         if key in seen:
             continue
         seen.add(key)
         recs.append(r)
     which = draw(st.sampled_from(["nodes", "nodes", "edges", "both", "both", "none"]))
-    node_criteria = draw(crit_st) if which in ("nodes", "both") else None
-    edge_criteria = draw(crit_st) if which in ("edges", "both") else None
+    node_criteria = draw(crit_st()) if which in ("nodes", "both") else None
+    edge_criteria = draw(crit_st()) if which in ("edges", "both") else None
     mode = draw(st.sampled_from(["keep"] * 6 + ["remove"] * 6 + ["bad"]))
     if mode == "bad":
         mode = {"bad": draw(st.integers(0, len(BAD_MODES) - 1))}
@@ -445,26 +480,48 @@ PLAIN, TEMPORAL, MULTIPLEX = PlainFlavour(), TemporalFlavour(), MultiplexFlavour
 @st.composite
 def svh_cases(draw, tier):
     big = tier != "quick"
-    U = draw(universes(min_size=3, max_size=8, kinds=("ints", "strs", "range")))
+    U = draw(universes(min_size=4, max_size=8, kinds=("ints", "strs", "range")))
     labels = U["labels"]
     n = len(labels)
     weighted = draw(st.sampled_from([True, True, True, False]))
-    n_edges = draw(st.integers(1, 12 if big else 10))
-    # most hyperedges share one or two sizes so that a size class has several members
-    main_sizes = draw(st.lists(st.sampled_from([2, 2, 3, 3, 4]), min_size=1, max_size=2))
     edges, seen = [], set()
+
+    def add(ns, w):
+        if frozenset(ns) not in seen and ns:
+            seen.add(frozenset(ns))
+            edges.append({"ns": ns, "w": w if weighted else 1})
+
+    planted = weighted and draw(st.sampled_from([True, False]))
+    if planted:
+        # heavy hyperedges on disjoint node groups (small p-values) plus light ones of the
+        # same size (large p-values): both validated and non-validated members in one class
+        # (weights 3..30: p-values from 1e-2 down to 1e-12, on both sides of the threshold);
+        # the last nodes of the permutation carry a hyperedge of another size, so that the
+        # number of nodes of the size class differs from the number of active nodes
+        s_ = draw(st.sampled_from([2, 2, 3]))
+        perm = draw(st.permutations(list(range(n))))
+        spare = draw(st.sampled_from([0, 2, 3])) if n - 3 >= 2 * s_ else 0
+        for g in range((n - spare) // s_):
+            if draw(st.integers(0, 5)) != 0:
+                add(list(perm[g * s_:(g + 1) * s_]),
+                    draw(st.sampled_from([3, 5, 8, 13, 20, 30])))
+        if spare:
+            other = list(perm[n - spare:]) + ([perm[0]] if spare == s_ else [])
+            add(other, draw(st.sampled_from([1, 2, 5])))
+        main_sizes = [s_]
+    else:
+        main_sizes = draw(st.lists(st.sampled_from([2, 2, 3, 3, 4]), min_size=1, max_size=2))
+    n_edges = draw(st.integers(1, 12 if big else 9))
     for _ in range(n_edges):
         size = draw(st.sampled_from(main_sizes * 3 + [1, 2, 3, 4, 5]))
         size = min(size, n)
         ns = draw(st.lists(st.integers(0, n - 1), min_size=size, max_size=size, unique=True))
-        if frozenset(ns) in seen:
-            continue
-        seen.add(frozenset(ns))
-        w = draw(st.sampled_from([1, 1, 1, 2, 2, 3, 5, 8, 13, 20, 30])) if weighted else 1
-        edges.append({"ns": ns, "w": w})
+        add(ns, draw(st.sampled_from([1, 1, 1, 2, 2, 3, 5, 8, 13, 20, 30]
+                                     if not planted else [1, 1, 2, 3])))
     mp = big and draw(st.integers(0, 59)) == 0
     return {"kind": U["kind"], "labels": labels, "weighted": weighted, "edges": edges,
-            "max_order": draw(st.sampled_from([2, 3, 3, 4, 4, 5, 6])), "mp": mp}
+            "max_order": draw(st.sampled_from([2, 3, 3, 4, 4, 5, 6])), "mp": mp,
+            "planted": planted}
 
 
 def build_svh(case):
@@ -571,7 +628,8 @@ def read_tables(svh, ref, case):
 
 def classify_svh(case, ref, ctx):
     ctx.label("labels:" + case["kind"], "weighted" if case["weighted"] else "unweighted",
-              "max_order=%d" % case["max_order"], "mp=%s" % case["mp"])
+              "max_order=%d" % case["max_order"], "mp=%s" % case["mp"],
+              "planted" if case.get("planted") else "free")
     sizes = {len(e["ns"]) for e in case["edges"]}
     if 1 in sizes:
         ctx.label("has_singleton")
@@ -657,19 +715,19 @@ def check_svh_validated(case, ctx):
 CLAUSES = [
     Clause("filter_hypergraph", lambda tier: filter_cases(tier, "plain"),
            lambda case, ctx: check_filter(PLAIN, case, ctx),
-           quick=300, thorough=2000, shards_quick=2,
+           quick=300, thorough=1500, shards_quick=3,
            rule="criteria remove some but not all nodes, or some but not all hyperedges"),
     Clause("filter_temporal", lambda tier: filter_cases(tier, "temporal"),
            lambda case, ctx: check_filter(TEMPORAL, case, ctx),
-           quick=300, thorough=2000, shards_quick=2,
+           quick=300, thorough=1500, shards_quick=3,
            rule="criteria remove some but not all nodes, or some but not all records"),
     Clause("filter_multiplex", lambda tier: filter_cases(tier, "multiplex"),
            lambda case, ctx: check_filter(MULTIPLEX, case, ctx),
-           quick=300, thorough=2000, shards_quick=2,
+           quick=300, thorough=1500, shards_quick=3,
            rule="criteria remove some but not all nodes, or some but not all records"),
-    Clause("svh_pvalues", svh_cases, check_svh_pvalues, quick=200, thorough=1500, shards_quick=2,
+    Clause("svh_pvalues", svh_cases, check_svh_pvalues, quick=250, thorough=1200, shards_quick=3,
            rule="a size class in [2, max_order] with >= 2 hyperedges"),
-    Clause("svh_validated", svh_cases, check_svh_validated, quick=250, thorough=1500,
-           shards_quick=2,
+    Clause("svh_validated", svh_cases, check_svh_validated, quick=300, thorough=1200,
+           shards_quick=4,
            rule="a size class with >= 3 hyperedges, some validated and some not"),
 ]
